@@ -4,34 +4,12 @@
    Canon/Perm.v and Canon/Iso.v of the C01 area did not exist when this file was written; this
    file is self-contained (stdlib only) and is used by the C02 files only. *)
 From Coq Require Import List Arith Lia Bool.
+From Mamba Require Export Canon.AutModel.
 Import ListNotations.
-
-Definition perm := list nat.
-
-(* image of i; indices outside the slice are left alone (never used on them by the theorems) *)
-Definition app (p : perm) (i : nat) : nat := nth i p i.
+Open Scope nat_scope.
 
 Definition is_perm (n : nat) (p : perm) : Prop :=
   length p = n /\ NoDup p /\ Forall (fun x => x < n) p.
-
-Fixpoint memb (x : nat) (l : list nat) : bool :=
-  match l with [] => false | y :: t => (x =? y) || memb x t end.
-
-Fixpoint nodupb (l : list nat) : bool :=
-  match l with [] => true | x :: t => negb (memb x t) && nodupb t end.
-
-Definition is_permb (n : nat) (p : perm) : bool :=
-  (length p =? n) && nodupb p && forallb (fun x => x <? n) p.
-
-Definition idp (n : nat) : perm := seq 0 n.
-
-(* (compose p q) i = p (q i): first q, then p *)
-Definition compose (p q : perm) : perm := map (app p) q.
-
-Fixpoint index (y : nat) (l : list nat) : nat :=
-  match l with [] => 0 | x :: t => if x =? y then 0 else S (index y t) end.
-
-Definition inv (p : perm) : perm := map (fun y => index y p) (seq 0 (length p)).
 
 Lemma nth_dflt (l : list nat) i d d' : i < length l -> nth i l d = nth i l d'.
 Proof. apply nth_indep. Qed.
